@@ -816,12 +816,14 @@ def evOps (s : Sys F) : Ev → Nat → Op → Prop
   | .failBind _, _, _ => False
   | .stamp idx _ _ _ _, j, op => op = .stamp ∧ j = idx
   | .syncTimeout, _, op => op = .syncTimeout
+  | .reload _ _ _, _, _ => False
 
 /-- **The two-state walk.**  For every event constructor: the list length is invariant, and the record of
 the link at ANY index `j` after the event is obtained from its record before the event by a finite sequence
 of the per-link operations the event may apply to that link (`evOps`), at the event's clock and in the
-configured mode. -/
-theorem step_run (s : Sys F) (e : Ev) :
+configured mode.  `hnr`: every event but `reload`, the one event that changes the link set — there the record of
+a retained link is UNCHANGED and only its index moves (`Lemmas/ReloadShell.lean: reload_frame`). -/
+theorem step_run (s : Sys F) (e : Ev) (hnr : e.isReload = false) :
     (step s e).1.links.length = s.links.length ∧
     ∀ (j : Nat) (l : FLink F), s.links[j]? = some l →
       ∃ l', (step s e).1.links[j]? = some l' ∧ LinkRun (evNow e) s.cfg.classic (evOps s e j) l l' := by
@@ -831,6 +833,7 @@ theorem step_run (s : Sys F) (e : Ev) :
         ∃ l', ls'[j]? = some l' ∧ LinkRun now s.cfg.classic A l l' :=
     fun h => ⟨h.length, fun j l hl => h.get j l hl⟩
   cases e with
+  | reload rnow raddrs routs => cases hnr
   | client now pkt => exact of_pw (client_pw s pkt)
   | uplink now cid data => exact uplink_run s cid data now
   | flush now => exact of_pw (flush_pw (A := fun op => op = .take) rfl s)
@@ -856,11 +859,11 @@ theorem step_run (s : Sys F) (e : Ev) :
     rw [List.getElem?_map, hl]; rfl
 
 /-- The closure-condition form of the walk (the two-state analogue of `step_all`). -/
-theorem step_rel {R : FLink F → FLink F → Prop} (s : Sys F) (e : Ev)
+theorem step_rel {R : FLink F → FLink F → Prop} (s : Sys F) (e : Ev) (hnr : e.isReload = false)
     (hR : ∀ j, StepRel (evNow e) s.cfg.classic (evOps s e j) R) :
     (step s e).1.links.length = s.links.length ∧
     ∀ (j : Nat) (l : FLink F), s.links[j]? = some l → ∃ l', (step s e).1.links[j]? = some l' ∧ R l l' := by
-  obtain ⟨h1, h2⟩ := step_run s e
+  obtain ⟨h1, h2⟩ := step_run s e hnr
   refine ⟨h1, fun j l hl => ?_⟩
   obtain ⟨l', hl', hr⟩ := h2 j l hl
   exact ⟨l', hl', (hR j).of_run hr⟩
@@ -878,9 +881,9 @@ theorem run_append (s : Sys F) (pre post : List Ev) : (run s (pre ++ post)).1 = 
   | nil => rfl
   | cons ev pre ih => exact ih _
 
-theorem run_length (s : Sys F) (evs : List Ev) : (run s evs).1.links.length = s.links.length := by
+theorem run_length (s : Sys F) (evs : List Ev) (hnr : NoReload evs) : (run s evs).1.links.length = s.links.length := by
   induction evs generalizing s with
   | nil => rfl
-  | cons ev evs ih => exact (ih _).trans (step_run s ev).1
+  | cons ev evs ih => exact (ih _ hnr.tail).trans (step_run s ev hnr.head).1
 
 end Srtla.SysDir
